@@ -98,7 +98,9 @@ HInit(d) ==
     pauseReq |-> FALSE, cancelReq |-> FALSE,
     pauseCause |-> FALSE,
     resumed  |-> FALSE,                            \* the last call was an accepted resume
+    resumedByRerun |-> FALSE,                      \* the last call was an accepted rerun
     rerun    |-> FALSE,                            \* an accepted rerun happened (C17 owns what follows)
+    rerunReq |-> {},                               \* <<task, route>> asked to run again by the last rerun
     retried  |-> FALSE,                            \* this step's completion was retried
     compl    |-> << >>,                            \* this step's completion: [] or [t, r, st, dec]
     ectx     |-> [t \in TaskNames(d) |-> << >>],   \* C06: expected contexts of the outstanding tokens of t
@@ -118,7 +120,12 @@ AttOf(h, k) == IF k \in DOMAIN h.att THEN h.att[k] ELSE 0
 Arrive(d, h, j, r, p, ec) ==
   LET k  == Rid(j, r)
       g0 == GenOf(h, k)
-      g1 == IF p \in g0.arr THEN [arr |-> {p}, fired |-> FALSE, started |-> FALSE, ctx |-> ec]
+      g1 == IF p \in g0.arr
+            THEN (IF h.rerun
+                  \* after a rerun an inbound task that runs again re-arms the join, the other
+                  \* branches' earlier arrivals stand (whatever follows from the rerun task runs again)
+                  THEN [arr |-> g0.arr, fired |-> FALSE, started |-> FALSE, ctx |-> MergeCtx(g0.ctx, ec)]
+                  ELSE [arr |-> {p}, fired |-> FALSE, started |-> FALSE, ctx |-> ec])
             ELSE [arr |-> g0.arr \cup {p}, fired |-> g0.fired, started |-> g0.started,
                   ctx |-> IF g0.arr = {} THEN ec ELSE MergeCtx(g0.ctx, ec)]
       fire == ~g1.fired /\ Cardinality(g1.arr) >= Need(d, j)
@@ -166,14 +173,15 @@ IsRetried(prev, step) ==
 IsNewExec(prev, step) ==
   /\ step.call.op = "start" /\ step.ret = "ok"
   /\ \/ Len(step.obs.seq) > Len(prev.seq)
-     \/ RecSt(prev, step.call.task, step.call.route) = "retrying"
+     \/ RecSt(prev, step.call.task, step.call.route) \in {"retrying", "null"}   \* "null": record added by a rerun
 
 TaskResult(d, step) == IF HasItems(d, step.call.task) THEN step.call.acc ELSE step.call.res
 
 HStepCore(d, h, prev, step) ==
   LET c   == step.call
       obs == step.obs
-      h0  == [h EXCEPT !.retried = FALSE, !.compl = << >>, !.resumed = FALSE]
+      h0  == [h EXCEPT !.retried = FALSE, !.compl = << >>, !.resumed = FALSE,
+                       !.resumedByRerun = (c.op = "rerun" /\ step.ret = "ok")]
   IN
   CASE c.op = "new" ->
          IF obs.wf \in Abended THEN [h0 EXCEPT !.doomed = TRUE]
@@ -204,7 +212,10 @@ HStepCore(d, h, prev, step) ==
                             ELSE LET seen == CtxOf(obs, Rec(obs, c.task, c.route).ctxin)
                                      m == {i \in 1..Len(@) : Proj(@[i]) = seen}
                                  IN IF m = {} THEN Tail(@) ELSE RemoveAt(@, CHOOSE i \in m : \A j \in m : i <= j),
-                         !.its = (Rid(c.task, c.route) :> [started |-> IF c.item >= 0 THEN {c.item} ELSE {}, st |-> << >>]) @@ @,
+                         !.its = (Rid(c.task, c.route) :>
+                                    (IF h0.rerun /\ <<c.task, c.route>> \in h0.rerunReq /\ c.item >= 0
+                                     THEN [ItsOf(h0, Rid(c.task, c.route)) EXCEPT !.started = @ \cup {c.item}]
+                                     ELSE [started |-> IF c.item >= 0 THEN {c.item} ELSE {}, st |-> << >>])) @@ @,
                          !.att = (Rid(c.task, c.route) :>
                                     IF RecSt(prev, c.task, c.route) = "retrying" THEN AttOf(h0, Rid(c.task, c.route)) + 1 ELSE 1) @@ @,
                          !.gen = IF IsJoin(d, c.task)
@@ -244,7 +255,28 @@ HStepCore(d, h, prev, step) ==
          ELSE h1
     [] c.op = "query" -> [h0 EXCEPT !.cleanupDue = {}]
     [] c.op = "rerun" ->
-         IF step.ret = "ok" THEN [h0 EXCEPT !.rerun = TRUE, !.doomed = FALSE, !.term = "none"] ELSE h0
+         IF step.ret # "ok" THEN h0
+         ELSE \* requested executions (default: abended terminal ones) become due again
+              LET req == IF Len(c.arg) > 0 THEN {<<c.arg[i][1], c.arg[i][2]>> : i \in 1..Len(c.arg)}
+                         ELSE {<<prev.seq[i].id, prev.seq[i].route>> : i \in {j \in 1..Len(prev.seq) :
+                                   prev.seq[j].term /\ prev.seq[j].st \in Abended /\ prev.seq[j].id \in TaskNames(d)}}
+                  reqT(t) == Cardinality({x \in req : x[1] = t})
+                  plain(t) == Cardinality({x \in req : x[1] = t})
+                  resetOf(x) == \E i \in 1..Len(c.arg) : c.arg[i][1] = x[1] /\ c.arg[i][2] = x[2] /\ c.arg[i][3] = 1
+                  keep(x) == LET it == ItsOf(h0, Rid(x[1], x[2])) IN
+                             IF resetOf(x) THEN NoIts
+                             ELSE [started |-> {i \in it.started : i \in DOMAIN it.st /\ it.st[i] \notin Abended},
+                                   st |-> [i \in {j \in DOMAIN it.st : it.st[j] \notin Abended} |-> it.st[i]]]
+              IN [h0 EXCEPT !.rerun = TRUE, !.doomed = FALSE, !.term = "none", !.cancelReq = FALSE, !.pauseReq = FALSE,
+                            !.pauseCause = FALSE, !.cleanup = {},
+                            !.rerunReq = req,
+                            !.tok  = [t \in TaskNames(d) |-> @[t] + plain(t)],
+                            !.just = [t \in TaskNames(d) |-> @[t] + plain(t)],
+                            !.its = [k \in DOMAIN @ \cup {Rid(x[1], x[2]) : x \in {y \in req : HasItems(d, y[1])}} |->
+                                       IF \E x \in req : HasItems(d, x[1]) /\ Rid(x[1], x[2]) = k
+                                       THEN keep(CHOOSE x \in req : Rid(x[1], x[2]) = k) ELSE @[k]],
+                            !.ectx = [t \in TaskNames(d) |->
+                                        @[t] \o SetToSeq({XctxOf(h0, Rid(x[1], x[2])) : x \in {y \in req : y[1] = t}})]]
     [] OTHER -> h0
 
 (* a run-time expression error recorded by this call dooms the workflow as well *)
@@ -282,7 +314,7 @@ C01_cleanup_offered(d, h0, step) ==
 C01_offer_known(d, step) ==
   \A i \in 1..Len(step.obs.offers) : step.obs.offers[i].id \in TaskNames(d)
 C01_start_consumes(d, h0, prev, step) ==
-  IsNewExec(prev, step) => step.call.task \in TaskNames(d) /\ h0.tok[step.call.task] > 0
+  (IsNewExec(prev, step) /\ ~h0.rerun) => step.call.task \in TaskNames(d) /\ h0.tok[step.call.task] > 0
 C01_success_exact(d, h1, step) ==
   (step.obs.wf = "succeeded" /\ ~h1.rerun) => \A t \in TaskNames(d) : h1.tok[t] = 0
 C01_status_truthful(d, prev, step) ==
@@ -475,7 +507,8 @@ C11_no_offer_after(step) == (step.obs.q /\ HasErr(step.obs, "expr")) => step.obs
 ItemOffers(d, step) == {i \in 1..Len(step.obs.offers) : step.obs.offers[i].nitems >= 0}
 InFlightOf(obs, t, r) == {k \in 1..Len(obs.infl) : obs.infl[k][1] = t /\ obs.infl[k][2] = r /\ obs.infl[k][3] >= 0}
 WindowOf(d, t, n) == LET c == d.tasks[t].conc IN IF c = -1 THEN n ELSE IF c <= 0 THEN 1 ELSE c
-StartedOf(h, obs, t, r) == IF OpenRec(obs, t, r) THEN ItsOf(h, Rid(t, r)).started ELSE {}
+StartedOf(h, obs, t, r) == IF OpenRec(obs, t, r) \/ (h.rerun /\ <<t, r>> \in h.rerunReq)
+                           THEN ItsOf(h, Rid(t, r)).started ELSE {}
 C12_shape(d, step) ==
   step.obs.q => \A i \in 1..Len(step.obs.offers) :
      LET o == step.obs.offers[i] IN
@@ -561,10 +594,32 @@ C13_delay(d, step) ==
      LET o == step.obs.offers[i] IN
      IF RecSt(step.obs, o.id, o.route) = "retrying"
      THEN o.delay = (IF d.tasks[o.id].retry.on /\ d.tasks[o.id].retry.delay > 0 THEN d.tasks[o.id].retry.delay ELSE 0)
-     ELSE o.id \in TaskNames(d) => o.delay = d.tasks[o.id].delay
+     ELSE o.id \in TaskNames(d) =>
+             \/ o.delay = d.tasks[o.id].delay
+             \* a staged entry that was re-staged by a retry and is offered again after a rerun keeps a zero delay
+             \/ o.delay = 0 /\ HasRetry(d, o.id)
 
 (* C15/C11 (soundness half): no internal error escapes an API call. *)
 C15_internal_error(step) == step.ret = "ok" \/ step.ret \in Rejections
+
+(* C17: rerun. *)
+C17_accept(prev, step) ==
+  (step.call.op = "rerun" /\ step.ret = "ok") =>
+     /\ prev.wf \in Completed
+     /\ \A i \in 1..Len(step.call.arg) : HasRec(prev, step.call.arg[i][1], step.call.arg[i][2])
+C17_resuming(step) == (step.call.op = "rerun" /\ step.ret = "ok") => step.obs.wf = "resuming"
+(* exactly the requested executions (and work that was still due) are offered; each requested one is *)
+C17_exact(d, h0, h1, step) ==
+  (step.obs.q /\ h1.rerun /\ step.obs.wf \in {"running", "resuming"}) =>
+     /\ \A t \in TaskNames(d) : Cardinality(NewOffers(step, t)) <= h1.tok[t]
+     /\ \A x \in h1.rerunReq :
+          (~OpenRec(step.obs, x[1], x[2]) /\ RecSt(step.obs, x[1], x[2]) \in Completed
+             /\ h0.resumedByRerun) =>
+             \E i \in 1..Len(step.obs.offers) : step.obs.offers[i].id = x[1] /\ step.obs.offers[i].route = x[2]
+C17_no_repeat(d, h0, prev, step) ==
+  (h0.rerun /\ IsNewExec(prev, step)) => step.call.task \in TaskNames(d) /\ h0.tok[step.call.task] > 0
+C17_not_stuck(h1, step) ==
+  (h1.rerun /\ Quiescent(step)) => step.obs.wf \in Resting
 
 (* C18: the execution history is append-only. *)
 SeqId(obs) == [i \in 1..Len(obs.seq) |-> <<obs.seq[i].id, obs.seq[i].route>>]
@@ -642,6 +697,11 @@ Failing(d, h0, h1, prev, step) ==
   FP("C13", "C13_silent",          C13_silent(prev, step)) \cup
   FP("C13", "C13_delay",           C13_delay(d, step)) \cup
   FP("C15", "C15_internal_error",  C15_internal_error(step)) \cup
+  FP("C17", "C17_accept",          C17_accept(prev, step)) \cup
+  FP("C17", "C17_resuming",        C17_resuming(step)) \cup
+  FP("C17", "C17_exact",           C17_exact(d, h0, h1, step)) \cup
+  FP("C17", "C17_no_repeat",       C17_no_repeat(d, h0, prev, step)) \cup
+  FP("C17", "C17_not_stuck",       C17_not_stuck(h1, step)) \cup
   FP("C18", "C18_seq_prefix",      C18_seq_prefix(prev, step)) \cup
   FP("C18", "C18_ctxs_prefix",     C18_ctxs_prefix(prev, step)) \cup
   FP("C18", "C18_routes_prefix",   C18_routes_prefix(prev, step)) \cup
@@ -699,7 +759,27 @@ KF_C06_inherited_delta_after_newer(d, h1, step) ==
                /\ \E v \in DOMAIN c : o.ctx[v] # c[v].val /\ \E hv \in c[v].hist : hv[2] = o.ctx[v]
                /\ \A v \in DOMAIN c : o.ctx[v] = c[v].val \/ \E hv \in c[v].hist : hv[2] = o.ctx[v]
 
+(* S19 (trace level): a rerun was accepted although a failure of the first run that the request   *)
+(* does not cover still stands (its error entry is still there)                                   *)
+KF_C17_partial_rerun_succeeds(d, h1, step) ==
+  /\ h1.rerun
+  /\ \E i \in 1..Len(step.obs.errs) :
+       /\ step.obs.errs[i].cls \in {"expr", "exec_failed"}
+       /\ step.obs.errs[i].task \in TaskNames(d) \cup {"fail"}
+       /\ \A x \in h1.rerunReq : x[1] # step.obs.errs[i].task
+
+(* S14 (trace level): a join staged by the first run is offered after a rerun while an inbound    *)
+(* task of it has been asked to run again and has not completed yet                               *)
+KF_C17_first_run_side_effects(d, h1, step) ==
+  /\ h1.rerun /\ step.obs.q
+  /\ \E i \in 1..Len(step.obs.offers) :
+       LET o == step.obs.offers[i] IN
+       /\ IsJoin(d, o.id) /\ ~OpenRec(step.obs, o.id, o.route)
+       /\ \E x \in h1.rerunReq : x[1] \in Inbound(d, o.id) /\ RecSt(step.obs, x[1], x[2]) \notin Completed
+
 Signatures(d, h0, h1, prev, step) ==
+  F("KF_C17_first_run_side_effects", ~KF_C17_first_run_side_effects(d, h1, step)) \cup
+  F("KF_C17_partial_rerun_succeeds", ~KF_C17_partial_rerun_succeeds(d, h1, step)) \cup
   F("KF_C06_inherited_delta_after_newer", ~KF_C06_inherited_delta_after_newer(d, h1, step)) \cup
   F("KF_C07_late_arrival_after_fire", ~KF_C07_late_arrival_after_fire(d, h1, step)) \cup
   F("KF_C12_items_reset_by_late_arrival", ~KF_C12_items_reset_by_late_arrival(d, h1, step))
